@@ -329,7 +329,7 @@ type itemSpec struct{ kind, key string }
 var adjustItems = func() []itemSpec {
 	it := []itemSpec{
 		{"ann", "a1"}, {"ann", "a2"}, {"env", "E1"}, {"env", "E2"}, {"mount", "/m1"}, {"mount", "/m2"}, {"mount", "/m1/sub"},
-		{"dev", "/dev/d1"}, {"dev", "/dev/d2"}, {"args", ""}, {"cdi", "vendor.com/dev=c1"}, {"cdi", "vendor.com/dev=c2"},
+		{"dev", "/dev/d1"}, {"dev", "/dev/d2"}, {"dev", "/dev//d3"}, {"mount", "/m4/../m4"}, {"env", "e-3"}, {"ann", "a.b/c-d"}, {"args", ""}, {"cdi", "vendor.com/dev=c1"}, {"cdi", "vendor.com/dev=c2"},
 		{"rlimit", "RLIMIT_NOFILE"}, {"rlimit", "RLIMIT_NPROC"}, {"huge", "2M"}, {"huge", "1G"}, {"unified", "u1"}, {"unified", "u2"},
 		{"cgpath", ""}, {"oom", ""},
 	}
